@@ -58,7 +58,10 @@ ArgOKForType(p, v) ==
   /\ (MarksIn(v) # {} => p.am)
 
 IsArgErr(out) == ~out.ok /\ Has(out, "idx")
-Refined(s, v) == (s.rr /\ v.st = "unk" /\ v.ty.k # "dynamic") => v.rf.null = "F"
+\* what the declared RefineResult states: "notnull" (b.NotNull()) or "null" (b.Null(): an unknown result collapses to the known null of its type)
+RrKind(s) == IF Has(s, "rrk") THEN s.rrk ELSE "notnull"
+Refined(s, v) == s.rr => (IF RrKind(s) = "null" THEN (v.ty.k # "dynamic" /\ v.st # "k" => v.st = "null")
+                          ELSE ((v.st = "unk" /\ v.ty.k # "dynamic") => v.rf.null = "F"))
 
 (***************************************************************************)
 (* Rules over one observed call e = [spec, args, cbs, out, rt, rtt].       *)
@@ -99,7 +102,8 @@ CallFailedRules(e) ==
           \cup (IF s.tcb \in {"err", "panic"} THEN (IF out.ok THEN {"C10.TypeErrorPropagates"} ELSE {})
                 ELSE IF UnknownStops(s, args) THEN
                    (IF ImplCbs(e) # {} THEN {"C10.UnknownShortCircuits"} ELSE {})
-                   \cup (IF out.ok /\ out.val.st = "unk" /\ TEquals(out.val.ty, T) THEN {} ELSE {"C10.UnknownShortCircuits"})
+                   \cup (IF out.ok /\ TEquals(out.val.ty, T) /\ (out.val.st = "unk" \/ (s.rr /\ RrKind(s) = "null" /\ out.val.st = "null" /\ T.k # "dynamic"))
+                         THEN {} ELSE {"C10.UnknownShortCircuits"})
                    \cup (IF out.ok /\ ~(MustCarry(s, args) \subseteq MarksIn(out.val)) THEN {"C10.ShortCircuitCarriesMarks"} ELSE {})
                    \cup (IF out.ok /\ ~Refined(s, out.val) THEN {"C10.RefineApplied"} ELSE {})
                 ELSE
